@@ -70,7 +70,7 @@ theorem echoInv_sendMessage (e : Ep) (m : Msg) (hi : EchoInv e) (hm : echoOK e.p
     EchoInv (sendMessage e m) := by
   unfold EchoInv at *
   intro x hx
-  simp only [sendMessage, kaReset, idleReset, List.mem_append, List.mem_singleton] at hx
+  simp only [sendMessage, sendReady, kaReset, idleReset, List.mem_append, List.mem_singleton] at hx
   rcases hx with hx | hx
   · exact hi x hx
   · subst hx; exact hm
@@ -132,7 +132,7 @@ theorem echoInv_writeConn (e : Ep) (n : Nat) (up : Bool) (hi : EchoInv e) : Echo
     · exact hi
   · simp only []
     split
-    · exact echoInv_of_view (cv_doClose e) hi
+    · exact hi
     · split
       · exact echoInv_of_view (by rw [cv_checkSessTerm]; rfl) hi
       · exact echoInv_of_view rfl hi
@@ -321,7 +321,9 @@ theorem echoInv_step (e : Ep) (ev : Ev) (hr : RxInv e) (hi : EchoInv e) : EchoIn
     simp only []
     split
     · exact hi
-    · exact echoInv_pump _ _ hi
+    · split
+      · exact hi
+      · exact echoInv_of_view rfl (echoInv_pump _ _ (echoInv_of_view (e := e) rfl hi))
   | rx c =>
     simp only []
     split
